@@ -568,6 +568,12 @@ def filters_eval(pm: ProgramModel, ctx: Ctx, fmc: Any) -> None:
             mb.constraint("arith", nn(o_("GREATER"), nn(o_("ADD"), nn("TINTEGER"), nn(1)), nn(2))),
             mb.constraint("agg", nn(o_("GREATER"), nn(o_("SUM"), nn("fee"), nn("P1")), nn(2)))]
     del donor
+    for nm_ in ("Log", "Net", "log", "net"):
+        mb.relation(root, [mb.feature(nm_)], 0, 1)
+        owner[id(root._f["relations"][-1]._f["children"][0])] = D(0, 1, 1)
+    # equal under Constraint.__eq__ (texts differ in letter case only), yet two constraints over four features
+    ctcs += [mb.constraint("k-upper", nn(o_("REQUIRES"), nn("Log"), nn("Net"))),
+             mb.constraint("k-lower", nn(o_("REQUIRES"), nn("log"), nn("net")))]
     fm = mb.model(root, ctcs)
 
     def ev(fi: Any, args: list[Any]) -> Any:
